@@ -114,11 +114,16 @@ fn op_from_json(v: &Value) -> Result<Op, String> {
 pub struct SimScenario {
     pub sys: Sys,
     pub ops: Vec<Op>,
+    /// original text of a shipped design (patronus reads this, the reference model reads `sys`,
+    /// which an independent btor2 reader produced from the same text)
+    pub btor2_text: Option<String>,
+    pub source: String,
 }
 
 impl SimScenario {
     fn to_json(&self) -> Value {
-        json!({"workload": {"kind": "ops", "system": sys_to_json(&self.sys),
+        json!({"workload": {"kind": "ops", "system": sys_to_json(&self.sys), "source": self.source,
+               "original_btor2": self.btor2_text,
                "ops": self.ops.iter().map(op_to_json).collect::<Vec<_>>()}})
     }
     fn from_json(v: &Value) -> Result<Self, String> {
@@ -129,6 +134,8 @@ impl SimScenario {
         Ok(SimScenario {
             sys: sys_from_json(&v["workload"]["system"])?,
             ops,
+            btor2_text: v["workload"]["original_btor2"].as_str().map(|s| s.to_string()),
+            source: v["workload"]["source"].as_str().unwrap_or("generated").to_string(),
         })
     }
 }
@@ -172,7 +179,7 @@ fn collect_subexprs(ctx: &Context, roots: &[ExprRef]) -> Vec<ExprRef> {
 }
 
 fn judge(scn: &SimScenario, acc: &mut Acc) -> Option<Violation> {
-    let btor2 = scn.sys.to_btor2();
+    let btor2 = scn.btor2_text.clone().unwrap_or_else(|| scn.sys.to_btor2());
     let sys = &scn.sys;
     let mut result: Option<Violation> = None;
     let mut harness_err: Option<String> = None;
@@ -609,13 +616,20 @@ fn ngram_hashes(ops: &[Op], shape: u64, out: &mut std::collections::BTreeSet<u64
     }
 }
 
+fn pick_shipped(rng: &mut Rng, tier: Tier) -> Option<(String, String, Sys)> {
+    let max_bytes = if tier == Tier::Thorough { 400_000 } else { 40_000 };
+    // no division: patronus' evaluator documents it as unimplemented
+    let v = shipped_corpus(max_bytes, 10, false);
+    if v.is_empty() { None } else { Some(v[rng.usize_below(v.len())].clone()) }
+}
+
 impl Property for C07 {
     fn id(&self) -> &'static str {
         "C07"
     }
     fn runs(&self, tier: Tier) -> usize {
         match tier {
-            Tier::Quick => 60_000,
+            Tier::Quick => 40_000,
             Tier::Thorough => 400_000,
         }
     }
@@ -626,17 +640,30 @@ impl Property for C07 {
             Tier::Quick => (12, 6),
             Tier::Thorough => (16, 8),
         };
-        let sys = gen_system(&mut rng, msb, mib, false, |c| {
-            c.division = false;
-            c.init_without_next = true;
-            c.max_outputs = 3;
-            c.named_nodes = true;
-        });
+        // one run in ten uses a design shipped under inputs/ (read independently by refsem)
+        let shipped = if rng.chance(1, 10) { pick_shipped(&mut rng, tier) } else { None };
+        let from_shipped = shipped.is_some();
+        let (sys, btor2_text, source) = match shipped {
+            Some((name, text, sys)) => (sys, Some(text), name),
+            None => (
+                gen_system(&mut rng, msb, mib, false, |c| {
+                    c.division = false;
+                    c.init_without_next = true;
+                    c.max_outputs = 3;
+                    c.named_nodes = true;
+                }),
+                None,
+                "generated".to_string(),
+            ),
+        };
+        acc.count(if from_shipped { "workload.shipped_design" } else { "workload.generated_system" }, 1);
         let mut orng = Rng::stream(run_seed, "ops");
         let n = orng.range(3, 40) as usize;
         let scn = SimScenario {
             sys,
             ops: gen_ops(&mut orng, n),
+            btor2_text,
+            source,
         };
         acc.evaluations += 1;
         acc.sim_steps += scn.ops.len() as u64;
@@ -661,6 +688,12 @@ impl Property for C07 {
             return vec![];
         };
         let mut out = vec![];
+        if scn.btor2_text.is_some() {
+            // continue on the re-emitted text so that the system itself can be shrunk
+            let mut s = scn.clone();
+            s.btor2_text = None;
+            out.push(s);
+        }
         // shorter histories first
         let n = scn.ops.len();
         if n > 2 {
